@@ -48,6 +48,16 @@ class BoundM:
         self.obj = obj
 
 
+class Closure:
+    """value of a lambda expression: the body is evaluated in the defining environment extended by the parameters"""
+    __slots__ = ('node', 'env', 'g')
+
+    def __init__(self, node, env, g):
+        self.node = node
+        self.env = env
+        self.g = g
+
+
 class PyRaise(Exception):
     """A Python exception raised by the interpreted program (exc is an Obj of an exception class)."""
 
@@ -927,6 +937,13 @@ class Engine:
         kwargs = kwargs or {}
         if isinstance(f, BoundM):
             return self.call(f.fn, [f.obj] + list(args), kwargs)
+        if isinstance(f, Closure):
+            names = [x.arg for x in f.node.args.args]
+            if kwargs or len(args) != len(names):
+                raise PyRaise(self.make_exc(TypeError, '<lambda>() takes %d positional arguments but %d were given' % (len(names), len(args))))
+            env = dict(f.env)
+            env.update(zip(names, args))
+            return self.ev(f.node.body, env, f.g)
         if isinstance(f, types.MethodType):
             fn = f.__func__
             if isinstance(fn, types.FunctionType) and (fn.__module__ or '').startswith(self.package):
@@ -1059,6 +1076,14 @@ class Engine:
             if isinstance(slf, (list, dict, tuple, str, bytes)) or slf is None or isinstance(slf, types.ModuleType):
                 if any(is_sym(a) for a in args) and isinstance(slf, dict) and name in ('get', '__getitem__'):
                     return self.dict_lookup(slf, args[0], args[1] if len(args) > 1 else None, name == 'get')
+                if isinstance(slf, list) and name in ('sort', 'reverse'):
+                    if self._is_foreign_mutable(slf):
+                        self.note_write('%s()' % name, slf)
+                    self.wrote()
+                    if name == 'reverse':
+                        slf.reverse()
+                        return None
+                    return self.list_sort(slf, kwargs.get('key'), kwargs.get('reverse', False), args)
                 if isinstance(slf, (list, dict, tuple, str, bytes)) and name in (
                         'append', 'get', 'count', 'index', 'items', 'keys', 'values', 'pop', 'extend', 'format',
                         'startswith', 'join', 'copy', 'insert'):
@@ -1071,6 +1096,32 @@ class Engine:
         if isinstance(f, BinCount):
             return f(self, *args)
         raise OutOfSubset('call of native %r' % (f,))
+
+    def list_sort(self, lst, key, reverse, args):
+        """list.sort(key=..., reverse=...): stable insertion sort; every comparison of (possibly symbolic) integer keys is a
+        decision of the path"""
+        if args:
+            raise PyRaise(self.make_exc(TypeError, 'sort() takes no positional arguments'))
+        if not conc(reverse):
+            raise OutOfSubset('symbolic reverse flag of sort()')
+        items = list(lst)
+        if len(items) > 8:
+            raise OutOfSubset('sort of a list longer than 8')
+        keys = [self.call(key, [x]) if key is not None else x for x in items]
+        if not all(is_intlike(k) for k in keys):
+            raise OutOfSubset('sort keys that are not integers')
+        out = []
+        for x, k in zip(items, keys):
+            pos = len(out)
+            while pos > 0:
+                pk = out[pos - 1][1]
+                before = cmp('>', k, pk) if reverse else cmp('<', k, pk)
+                if not self.istrue(before):
+                    break
+                pos -= 1
+            out.insert(pos, (x, k))
+        lst[:] = [x for x, _ in out]
+        return None
 
     def dict_lookup(self, d, key, default, is_get):
         for k, v in d.items():
@@ -1804,7 +1855,10 @@ class Engine:
         if t in (ast.ListComp, ast.GeneratorExp):
             return self.comprehension(e, env, g)
         if t is ast.Lambda:
-            raise OutOfSubset('lambda')
+            a = e.args
+            if a.vararg or a.kwarg or a.kwonlyargs or a.defaults or a.posonlyargs:
+                raise OutOfSubset('lambda with defaults / star parameters')
+            return Closure(e, env, g)
         if t is ast.Starred:
             raise OutOfSubset('starred')
         raise OutOfSubset('expression %s' % t.__name__)
